@@ -182,11 +182,23 @@ def find_blocks(path, src, kinds=("impl", "trait", "mod")):
     toks = code_toks(lex(src))
     out = []
 
-    def scan(lo, hi):
+    def scan(lo, hi, deep=False):
         k = lo
         while k < hi:
             t = toks[k]
+            if t.kind == "ident" and t.text == "macro_rules" and k + 3 < hi and toks[k + 1].text == "!":
+                # items defined inside a macro_rules! body (e.g. `trait Iden` in iden_trait!): descend
+                j = k + 2
+                while j < hi and not (toks[j].kind == "punct" and toks[j].text in OPEN):
+                    j += 1
+                c = match_close(toks, j)
+                scan(j + 1, c, deep=True)
+                k = c + 1
+                continue
             if t.kind == "punct" and t.text in OPEN:
+                if deep:
+                    k += 1
+                    continue
                 k = match_close(toks, k) + 1
                 continue
             if t.kind == "ident" and t.text in ("impl", "trait", "mod") and _is_item_start(toks, k):
